@@ -13,5 +13,29 @@ def main(argv: list[str]) -> int:
         from selftest import determinism
 
         return determinism.main(argv[1:])
+    if what == "seeded":
+        # every change kept under seeded/<id>/ against the quick tier of the property it was written for
+        import glob
+        import json
+        import os
+        import subprocess
+
+        v = os.path.dirname(os.path.dirname(os.path.abspath(__file__)))
+        ids = [os.path.basename(os.path.dirname(p)) for p in sorted(glob.glob(os.path.join(v, "seeded", "*", "patch.diff")))]
+        if argv[1:]:
+            ids = [i for i in ids if any(a in i for a in argv[1:])]
+        missed = 0
+        for sid in ids:
+            r = subprocess.run([os.path.join(v, "tools", "try_seeded.py"), sid, sid[:3]], capture_output=True, text=True)
+            line = next((ln for ln in r.stdout.splitlines() if " vs " in ln), r.stdout[-200:] + r.stderr[-300:])
+            print(line[:260], flush=True)
+            try:
+                res = json.load(open(os.path.join(v, "seeded", sid, "check_results.json")))
+                if not res.get(sid[:3], {}).get("caught"):
+                    missed += 1
+            except Exception:  # noqa: BLE001
+                missed += 1
+        print(f"seeded: {len(ids) - missed}/{len(ids)} changes caught by the check of their own property")
+        return 1 if missed else 0
     print(f"unknown selftest {what}", file=sys.stderr)
     return 2
